@@ -9,7 +9,6 @@ NOT_APPLICABLE = {
     "C16": "Reflexivity/union/inheritance laws quantify over generated types; the hand-mirrored fast path vs pairwise rules is a semantic equivalence, not a shape property.",
     "C17": "Render-then-reparse equality over generated types; precedence bugs are value-level.",
     "C18": "Correct substitution for every argument type is a semantic equation over instantiation.",
-    "C34": "Path<->URI round-trip over all strings is value-level behaviour of url/percent-decoding.",
     "C36": "Exit status and report contents 'exactly equal' the filtered diagnostics: value-level; the only shape facts would restate the 60-line function and miss the realistic mutants.",
 }
 
@@ -316,3 +315,12 @@ PROPS["C22"] = dict(
          "(not by the length of the whole text or an open-ended tail of it), and no index/slice of LineIndex can go out of range.",
     note="The round trip offset -> position -> offset and the exact clamped value are integer arithmetic over runtime line tables and are "
          "not decided (that would need an interval/relational proof, another technique family). Trusted: rustc MIR, emmyfacts, lib/bounds.py.")
+
+PROPS["C34"] = dict(
+    module="c34", func="run", level="other", crates=["emmylua_code_analysis", "emmylua_ls", "emmylua_check", "emmylua_doc_cli"],
+    technique="callee / receiver-type scan of the Vfs id lookups + inventory of uri-keyed containers from ADT facts (who-may-key rule)",
+    text="Decides the second sentence of the property: a file is identified by its percent-decoded path -- Vfs::file_id and get_file_id go "
+         "through uri_to_file_path and a PathBuf-keyed map -- and no other store of per-file state in the analysis or the server is keyed by the "
+         "uri text (3 audited exceptions).",
+    note="The first sentence (path -> uri -> path is the identity for all normalized paths, including spaces, %, #, ? and non-ASCII) is "
+         "value-level behaviour of the url crate and percent-decoding and is not decided. Trusted: emmyfacts ADT facts, the audited table in rules/c34.py.")
